@@ -15,6 +15,7 @@ def run(ck, fb):
     r13e(ck, fb)
     r13f(ck, fb)
     r13g(ck, fb)
+    r13h(ck, fb)
 
 
 def _run0(ck, fb):
@@ -381,3 +382,28 @@ def _stale_helper(ck, fb, t, s, cutoff):
             lm_ok = False
         return (en_ok, lm_ok)
     return (False, False)
+
+
+def r13h(ck, fb):
+    ck.rule('R13h', 'what a service expired in this round is announced: in NamingActor::time_check every way out of the per-service loop that is '
+                    'reachable after Service::time_check ran for a service (the round\'s size budget) passes the push of that service\'s (removed, '
+                    'marked-unhealthy) lists into change_list first; the lists are the only record of what was expired locally, the other nodes and '
+                    'the subscribers learn it from time_check_notify')
+    b = ck.body(NA + 'time_check', 'R13h')
+    if not b:
+        return
+    tc = b.calls(re.escape(SV + 'time_check') + '$')
+    ck.floor('R13h', 'Service::time_check call in NamingActor::time_check', len(tc), 1)
+    pushes = [s0 for s0 in b.calls(r'Vec::<.*>::push$') if any(Taint(b, call_src=lambda t: (t.get('f') or {}).get('d', '').endswith('Service::time_check')).op_tainted(a) for a in s0.args[1:])]
+    ck.require(len(pushes) >= 1, 'R13h', 'time_check:queues-results', b.where(), 'the lists returned by Service::time_check are not queued for time_check_notify')
+    for s0 in tc:
+        ex = util.loop_early_exits(b, s0.bb) or []
+        nxt = b.blocks[s0.bb]['t'].get('t')
+        for (src, dst) in ex:
+            if nxt is None or src not in cfg.reach_from(b, [nxt]):
+                continue
+            # can the exit edge be taken without having pushed?
+            free = cfg.reach_from(b, [nxt], blocked_blocks={p0.bb for p0 in pushes})
+            ck.require(src not in free, 'R13h', 'time_check:budget-exit-after-queue', b.where(src),
+                       'the loop over services can be left after a service was expired but before its lists were pushed to change_list: the service '
+                       'that crosses the round budget is expired here and nobody is told - non-owner nodes keep its instances healthy for ever')
